@@ -293,7 +293,7 @@ class PathLossBase:
         """
         d = _to_float_if_array_like(d)
         PL = self._calc_deterministic_path_loss_dB(d, **kargs)
-        if self.use_shadow_bool is True:  # pragma: no cover
+        if self.use_shadow_bool:  # pragma: no cover
             # Shadowing modeled by a Gaussian Distribution (in dB)
             if isinstance(d, np.ndarray):
                 # If 'd' is a numpy array (or something similar such as a
@@ -311,7 +311,7 @@ class PathLossBase:
         # The calculated path loss (in dB) must be positive. If it is not
         # positive that means that the distance 'd' is too small.
         if np.any(np.array(PL) < 0):
-            if self.handle_small_distances_bool is True:
+            if self.handle_small_distances_bool:
                 if isinstance(PL, np.ndarray):
                     # If PL is the path loss for multiple distance values
                     # and one (or more) of the path loss values is (are)
